@@ -266,7 +266,7 @@ def check_i2_i3(builder, fmt):
         if len(owners[n]) > 1:
             return report.viol("I2:name-identifies-two-elements:" + ("long" if len(n) > 1 else "short"),
                                "the name %r identifies %d different elements across the format and its bases" % (n, len(owners[n])),
-                               None, 1, sorted(sigof(e) for e in owners[n].values()))
+                               None, 1, sorted((sigof(e) for e in owners[n].values()), key=repr))
     args = list(fmt.get_arguments().values())
     multi = [i for i, a in enumerate(args) if a.is_multi_valued()]
     if len(multi) > 1 or (multi and multi[0] != len(args) - 1):
